@@ -37,6 +37,7 @@ TIERS = {
     "thorough": {"C01": (600000, 420), "C12": (600000, 420), "C14": (300000, 360), "C16": (600000, 300)},
 }
 MAX_SHRINK_CLASSES = 8
+DUMP_DIGESTS = None
 
 
 def load_known():
@@ -135,6 +136,21 @@ def cmd_check(prop, tier, seed, n_runs, budget, first):
     results = core.sweep(CHECKS[prop], seed, tier, n_runs, budget, first=first,
                          run_timeout=60.0 if tier == "quick" else 120.0)
     sweep_wall = time.monotonic() - t_start
+    n_random = len(results)
+    exhaustive_info = None
+    if hasattr(mod, "exhaustive_plans"):
+        plans = mod.exhaustive_plans(tier)
+        t1 = time.monotonic()
+        ex_res = core.run_plans(CHECKS[prop], plans, first_index=10 ** 9)
+        results = results + ex_res
+        exhaustive_info = {"plans": len(plans), "wall_s": round(time.monotonic() - t1, 1),
+                           "ok": sum(1 for r in ex_res if r["status"] == "ok"),
+                           "description": getattr(mod, "EXHAUSTIVE_NOTE", "")}
+        for r in ex_res:
+            if r["status"] == "ok":
+                for kk, vv in r.get("extra", {}).items():
+                    if isinstance(vv, (int, float)):
+                        exhaustive_info[kk] = exhaustive_info.get(kk, 0) + vv
 
     ok = [r for r in results if r["status"] == "ok"]
     bad = [r for r in results if r["status"] != "ok"]
@@ -155,6 +171,8 @@ def cmd_check(prop, tier, seed, n_runs, budget, first):
                 continue
         harness_errors.append({"run": r["run"], "status": r["status"], "detail": str(r.get("detail"))[-1500:]})
 
+    if DUMP_DIGESTS:
+        write_json(DUMP_DIGESTS, {str(r["run"]): r["digest"] for r in ok})
     faults, probes, extra = {}, {}, {}
     trans = set()
     digests_nt = set()
@@ -242,7 +260,7 @@ def cmd_check(prop, tier, seed, n_runs, budget, first):
         "samples": samples,
         "exhaustive": False,
         "runs_per_hour": int(evaluations / max(sweep_wall, 1e-6) * 3600),
-        "seeds": {"VERIF_SEED": seed, "run_indices": [first, first + len(results) - 1] if results else []},
+        "seeds": {"VERIF_SEED": seed, "run_indices": [first, first + n_random - 1] if n_random else []},
         "steps_simulated": steps,
         "fault_kinds_fired": dict(sorted(faults.items())),
         "probes": dict(sorted(probes.items())),
@@ -257,6 +275,8 @@ def cmd_check(prop, tier, seed, n_runs, budget, first):
         "workers": int(os.environ.get("VERIF_WORKERS", "0")) or min(16, os.cpu_count() or 1),
     }
     coverage.update({k: v for k, v in extra.items()})
+    if exhaustive_info:
+        coverage["exhaustive_family"] = exhaustive_info
     if hasattr(mod, "extra_coverage"):
         coverage.update(mod.extra_coverage(ok))
     evidence = {
@@ -294,6 +314,7 @@ def main():
     ap.add_argument("--first", type=int, default=0)
     ap.add_argument("--replay")
     ap.add_argument("--digests")
+    ap.add_argument("--dump-digests", help="write {run: event-log digest} of the sweep to this file")
     a = ap.parse_args()
     if a.replay:
         return cmd_replay(a.replay)
@@ -308,6 +329,8 @@ def main():
         n_runs = a.runs
     if a.budget or os.environ.get("VERIF_BUDGET_S"):
         budget = a.budget or float(os.environ["VERIF_BUDGET_S"])
+    global DUMP_DIGESTS
+    DUMP_DIGESTS = a.dump_digests
     return cmd_check(a.prop, a.tier, seed, n_runs, budget, a.first)
 
 
